@@ -1097,7 +1097,9 @@ class Gen:
         (`O.g`, `O.Ch.g`) that the edit deletes (mode "del": the space reached, or the child on the path, lies in the
         deleted tree) or whose child on the path the edit renames (mode "ren"; there also: calls a cells that was ever
         uncached through that child, `O.Ch.f(1)`).  Conservative: every reference named O
-        in the linearisation of the evaluating space counts, whichever one the MRO picks."""
+        in the linearisation of the evaluating space counts, whichever one the MRO picks.
+        C02_wide_1 is repaired in /repo: always False (the former trigger is generated)."""
+        return False
         m = self.m
         tree = set(m.tree(S))
         for E, d in m.sp.items():
